@@ -5,11 +5,15 @@ import json, os, subprocess, sys, tempfile, xml.etree.ElementTree as ET
 base = json.load(open("/root/.vp/BASELINE.json"))
 env = dict(os.environ)
 env.pop("EAR_VERIF", None)
+repo = "/repo"
+if "--repo" in sys.argv:
+    repo = sys.argv[sys.argv.index("--repo") + 1]
+    env["PYTHONPATH"] = repo
 with tempfile.TemporaryDirectory() as d:
     x = os.path.join(d, "junit.xml")
     extra = ["-n", "8"] if "--fast" in sys.argv else []
     subprocess.run(["/venv/bin/python", "-m", "pytest", "-ra", "-q", "-p", "no:cacheprovider", "--timeout=900",
-                    "--continue-on-collection-errors", "--junitxml=" + x] + extra, cwd="/repo", env=env,
+                    "--continue-on-collection-errors", "--junitxml=" + x] + extra, cwd=repo, env=env,
                    stdout=subprocess.DEVNULL, stderr=subprocess.DEVNULL)
     passed = set()
     for tc in ET.parse(x).getroot().iter("testcase"):
